@@ -172,6 +172,8 @@ type Exec struct {
 	spawned []*FuncV
 
 	dbgDone   bool
+	opaqueIds map[string]uint64
+	events    []callEvent
 	unmodelledWritten map[string]bool
 	retCond   *Term // disjunction of the path conditions of the returns of the last completed run
 	asserts   map[string][2]Value
@@ -209,6 +211,9 @@ func (x *Exec) newObj(name string, t types.Type) *Object {
 }
 
 func (x *Exec) assume(t *Term) {
+	if t.S.K != 'b' {
+		panic("assume of a non-boolean term: " + dumpTerm(t, 3))
+	}
 	if t.Op == "true" {
 		return
 	}
@@ -388,6 +393,11 @@ func (x *Exec) load(p *PtrV, st *State, pc *Term, what string) Value {
 	if p.Obj.Share {
 		// shared with a running goroutine: any value
 		v := x.getPath(st.h[p.Obj], p.Path)
+		if iv, ok := v.(*IfaceV); ok && strings.HasSuffix(p.Obj.name, ".ctxErr") {
+			// rely (established for the watcher by Run/cancel/value): once the flag
+			// is set the cell holds the non-nil ctx.Err()
+			return &IfaceV{Nil: x.b.False(), Opaque: "ctx.Err()", T: iv.T}
+		}
 		if t, ok := v.(*Term); ok {
 			return x.b.Fresh("shared_"+p.Obj.name, t.S)
 		}
@@ -432,6 +442,9 @@ func (x *Exec) noteRead(ov Value, path []PE) {
 }
 
 func (x *Exec) noteSelect(a, idx *Term) {
+	if idx.hasBV {
+		return // inside a quantifier body: not a cell of the counterexample
+	}
 	r := a
 	for r.Op == "store" {
 		r = r.Args[0]
@@ -1125,8 +1138,11 @@ func (x *Exec) ifaceEq(p, q *IfaceV) *Term {
 	if qn.Op == "true" {
 		return pn
 	}
-	if p.Opaque != "" && p.Opaque == q.Opaque {
+	if p.Opaque != "" && p.Opaque == q.Opaque && p.IdT == nil && q.IdT == nil {
 		return b.Eq(pn, qn)
+	}
+	if p.Dyn == nil && q.Dyn == nil && (p.IdT != nil || q.IdT != nil) {
+		return b.Or(b.And(pn, qn), b.AndN(b.Not(pn), b.Not(qn), b.Eq(x.ifaceId(p), x.ifaceId(q))))
 	}
 	if p.Dyn != nil && q.Dyn != nil {
 		if !types.Identical(p.DynT, q.DynT) {
